@@ -49,6 +49,9 @@ impl Lexica {
     pub fn raw_wid(dic: usize, idx: u32) -> u32 {
         ((dic as u32) << 28) | idx
     }
+    pub fn reading_of(w: &Word) -> String {
+        Self::reading(w)
+    }
     fn reading(w: &Word) -> String {
         format!("ヨ{}x{}", w.dic, w.idx)
     }
@@ -631,19 +634,50 @@ fn run_case(sink: &mut Sink, lx: &Lexica, dict: &Dict, ci: &CaseIn, ill_formed: 
         println!("split A   : {:?}\nsplit B   : {:?}", sa, sb);
     }
     let (dv, dvj) = dview(lx, &c.cpath);
+    // the rows of every dictionary as the author wrote them, in the vocabulary of the C05 codec model: from them the
+    // model computes the declared units and `rows_units_ok` itself (Model/SplitSource.v check_source)
+    let srcs = clist((0..lx.ndics).map(|d| {
+        clist(lx.words.iter().filter(|w| w.dic == d).map(|w| {
+            let units = |us: &Vec<(usize, u32, bool)>| -> String {
+                clist(us.iter().map(|u| {
+                    let t = lx.get(u.0, u.1);
+                    if u.2 {
+                        // written surface: the key for a word of the dictionary being built, the headword for a system word
+                        format!("uinl {} 0%N {}", ctext(if u.0 == d { &t.key } else { &t.head }), ctext(&Lexica::reading_of(t)))
+                    } else if u.0 == 0 || d == 0 {
+                        format!("uref {}", cn(u.1))
+                    } else {
+                        format!("uref {}", cn((1u32 << 28) | u.1))
+                    }
+                }))
+            };
+            format!("row {} {} {} 0%N {} {}", ctext(&w.key), ctext(&w.head), ctext(&Lexica::reading_of(w)), units(&w.a), units(&w.b))
+        }))
+    }));
     let term = format!(
-        "check_case {} {} {} {} {} {} {} {} {} {}",
-        dv,
+        "let t := {} in let m2o := {} in let cp := {} in let iu := {} in let sa := {} in let sb := {} in check_case {} t m2o cp {} iu {} {} sa sb && check_source {} t m2o cp iu sa sb",
         ctext(&c.modified),
         clist(c.m2o.iter().map(|x| cnu(*x))),
         clist(c.cpath.iter().map(|x| format!("({}, {}, {})", cnu(x.0), cnu(x.1), cn(x.2)))),
-        clist(c.ctoks.iter().map(ctok)),
         clist(c.stored.iter().map(|s| cpair(&clist(s.0.iter().map(|x| cn(*x))), &clist(s.1.iter().map(|x| cn(*x)))))),
+        clist(sa.iter().map(csplit)),
+        clist(sb.iter().map(csplit)),
+        dv,
+        clist(c.ctoks.iter().map(ctok)),
         ctoks(&a),
         ctoks(&b),
-        clist(sa.iter().map(csplit)),
-        clist(sb.iter().map(csplit))
+        srcs
     );
+    // the author's condition, recomputed here only for the histogram: keys of the declared units concatenate to the key
+    for p in c.cpath.iter().filter(|p| (p.2 >> 28) < 15) {
+        let w = lx.get((p.2 >> 28) as usize, p.2 & 0x0fff_ffff);
+        for us in [&w.a, &w.b] {
+            if !us.is_empty() {
+                let cat: String = us.iter().map(|u| lx.get(u.0, u.1).key.as_str()).collect();
+                sink.tag(if cat == w.key { "token_mode_pairs_with_rows_units_ok" } else { "token_mode_pairs_with_ill-formed_rows" });
+            }
+        }
+    }
     // histogram
     let max_units = c.stored.iter().map(|s| s.0.len().max(s.1.len())).max().unwrap_or(0);
     let nontrivial = max_units >= 2;
@@ -752,8 +786,57 @@ fn lexica_from_json(v: &Value) -> Lexica {
     lx
 }
 
+/// head_word_length = byte length of the key, at the boundaries of the writer's length prefix (one byte below 127, two
+/// bytes up to i16::MAX, build error above: C09_head_word_length_is_key_length states exactly this condition): a
+/// compound "K" + "é" with units K / é where K is a key of L bytes; the loaded head_word_length of K must be L and the
+/// A-mode split must put the boundary at byte L.  Headword, reading and normalised form are short, so only the key's
+/// length is at its limit.
+fn key_length_boundary(sink: &mut Sink, cfg: &str) {
+    use sudachi::dic::word_id::WordId;
+    for l in [1usize, 126, 127, 128, 255, 256, 257, 16383, 16384, 32764, 32765, 32766, 32767, 32768, 40000] {
+        let k = "a".repeat(l);
+        let csv = format!(
+            "{k},0,0,100,h,{p},ヨa,n,*,A,*,*,*,*\né,0,0,100,é,{p},ヨb,é,*,A,*,*,*,*\n{k}é,0,0,-100,hh,{p},ヨc,nn,*,C,0/1,0/1,*,*\n",
+            k = k,
+            p = POS
+        );
+        let desc = json!({"kind": "c09-key-length", "key_bytes": l});
+        let id = sink.case_rust_only(desc, true);
+        sink.tag("key_length_boundary");
+        match catch(|| build_dict(&csv, &[], cfg)) {
+            Err(p) => sink.fail(id, &format!("key of {} bytes: the builder panicked: {}", l, p), ""),
+            Ok(Err(e)) => {
+                // the compound key is l + 2 bytes: the writer must refuse exactly when that exceeds i16::MAX
+                if l + 2 <= 32767 {
+                    sink.fail(id, &format!("key of {} bytes was rejected: {}", l, e), "");
+                } else {
+                    sink.tag("key_length_rejected_by_builder");
+                }
+            }
+            Ok(Ok(d)) => {
+                if l + 2 > 32767 {
+                    sink.fail(id, &format!("compound key of {} bytes (> i16::MAX) was accepted", l + 2), "");
+                    continue;
+                }
+                let dict: Dict = Rc::new(d);
+                let hw: Vec<usize> = (0..3).map(|i| dict.lexicon().get_word_info(WordId::new(0, i)).map(|w| w.head_word_length()).unwrap_or(usize::MAX)).collect();
+                if hw != vec![l, 2, l + 2] {
+                    sink.fail(id, &format!("keys of {} / 2 / {} bytes are loaded with head_word_length {:?}", l, l + 2, hw), "");
+                    continue;
+                }
+                let text = format!("{}é", k);
+                let a = run_mode(&dict, &text, Mode::A);
+                let exp = Some(vec![Tok { wid: 0, begin: 0, end: l, sb: 0, se: l }, Tok { wid: 1, begin: l, end: l + 2, sb: l, se: l + 2 }]);
+                if text.len() <= 49149 && a != exp {
+                    sink.fail(id, &format!("key of {} bytes: mode A gives {:?}", l, a.map(|v| v.iter().map(|t| (t.wid, t.begin, t.end)).collect::<Vec<_>>())), "");
+                }
+            }
+        }
+    }
+}
+
 pub fn run(args: &Args) {
-    let mut sink = Sink::new("C09", &args.out, &["Model.Split"], args.seed, &args.tier);
+    let mut sink = Sink::new("C09", &args.out, &["Model.Split", "Model.SplitSource"], args.seed, &args.tier);
     sink.shard_size = 100;
     sink.rule("generated system + 0..2 user dictionaries (atoms of 1/2/3/4-byte code points, headwords (column 4) often of another byte length than the key, compounds declaring A and B units by id, U-id or inline reference: system->system, user->system, user->user; homographs; words with exactly one unit; unindexed unit targets) compiled by DictBuilder and loaded with DefaultInputTextPlugin + a rewrite.def whose rules change byte lengths; texts = 1..4 dictionary words / stray characters, randomly re-spelt in pre-normalisation form (upper case, full width, ㌔, rewrite rules); per text: C, A, B tokenisation by tokenizers that are fresh or were switched between modes (set_mode history, with analyses in between) before, A and B again under a restricted field request, and split_into(A/B) of every C token (sub-token ranges also checked against the unit key lengths); non-trivial = some C token declares >= 2 units; a separate malformed stream uses ill-formed declarations (unit list too short / first unit longer than the text)");
     let res = prepare_resources(&args.work);
@@ -792,6 +875,7 @@ pub fn run(args: &Args) {
             sink.tag("corpus_split_alpha");
         }
     }
+    key_length_boundary(&mut sink, &cfg);
     let ndict = args.n(45, 900);
     let per = args.n(26, 40);
     let mut built = 0u64;
